@@ -1,6 +1,7 @@
 ''' Whole bundle encodings and helper functions.
 '''
 import cbor2
+import io
 from typing import Set
 from scapy_cbor.fields import (PacketField, PacketListField)
 from scapy_cbor.packets import (CborArray)
@@ -44,6 +45,29 @@ class Bundle(CborArray):
         item = self.build()
         data = b'\x9f' + b''.join(cbor2.dumps(part) for part in item) + b'\xff'
         return data
+
+    def dissect(self, s):
+        ''' Decode from the encoded bundle.
+        The blocks of a bundle are in deterministic encoding
+        (Section 4.1 of RFC 9171), one that is not is refused: decoded it
+        could not be told from the deterministic form of the same values,
+        which is what is checked against the block CRCs.
+        '''
+        if isinstance(s, bytes):
+            with io.BytesIO(s) as buf:
+                item = cbor2.load(buf)
+                if buf.tell() != len(s):
+                    raise ValueError('Extra data after the bundle')
+            if not isinstance(item, list):
+                raise ValueError('Bundle is not an array')
+            if s[:1] == b'\x9f':
+                again = b'\x9f' + b''.join(cbor2.dumps(part) for part in item) + b'\xff'
+            else:
+                again = cbor2.dumps(item)
+            if again != s:
+                raise ValueError('Bundle is not in deterministic encoding')
+            s = item
+        CborArray.dissect(self, s)
 
     def post_dissect(self, s):
         # Special handling for admin payload
